@@ -17,6 +17,7 @@ type modelFn func(it *Interp, fr *frame, fn *ssa.Function, args []Value) Value
 type modelState struct {
 	assumptions      map[string]bool
 	symbolicMapOrder bool
+	manualClock      bool
 	expectPanic      []string
 	observe          []string
 	observeVals      []obsEntry
@@ -294,6 +295,19 @@ func registerAPIModels() {
 	apiModels["verifExpectPanic"] = func(it *Interp, fr *frame, fn *ssa.Function, args []Value) Value {
 		it.mstate.expectPanic = append(it.mstate.expectPanic, argStr(args[0]))
 		return nil
+	}
+	// verifManualClock: time.Now reads a clock that only verifAdvanceClock moves.
+	apiModels["verifManualClock"] = func(it *Interp, fr *frame, fn *ssa.Function, args []Value) Value {
+		it.mstate.manualClock = true
+		return nil
+	}
+	// verifAdvanceClock(name, max) int64: advance by an arbitrary 0..max whole seconds.
+	apiModels["verifAdvanceClock"] = func(it *Interp, fr *frame, fn *ssa.Function, args []Value) Value {
+		d := it.newNondet(argStr(args[0]), "int64", 64)
+		max := args[1].(*Term)
+		it.ex.assume(mkAnd(bvCmp("bvsge", d, mkInt(0)), bvCmp("bvsle", d, max)))
+		it.mstate.lastNow = bvBin("bvadd", it.clockTerm(), d)
+		return d
 	}
 	apiModels["verifParam"] = func(it *Interp, fr *frame, fn *ssa.Function, args []Value) Value {
 		name := argStr(args[0])
